@@ -684,7 +684,8 @@ def evaluate(cases, bins, harness, info):
     want = sorted(want)
     ilines = [c.id + " " + c.impl for c in cases if c.impl]
     clines = ["k%05d canon %s %s" % (i, s, b) for i, (s, b) in enumerate(want)]
-    slines = ["s%d scenario %s %s" % (i, t, s) for i, (t, s) in enumerate(SCENARIOS)]
+    seeds = info or [0]
+    slines = ["s%d_%d scenario %s %s %d" % (j, i, t, s, sd) for j, sd in enumerate(seeds) for i, (t, s) in enumerate(SCENARIOS)]
     impl_out = run_impl(harness, ilines + clines + slines)
     canon = {}
     for i, (s, b) in enumerate(want):
@@ -704,7 +705,7 @@ def evaluate(cases, bins, harness, info):
             bad_t = ge is not None and not agree(c, ge, obs)
         rows.append(dict(case=c, spec=sp, gen=ge, obs=obs, bad_monitor=bad_m, bad_tie=bad_t,
                          raw=dict(model=gen_out.get(c.id), spec=spec_out.get(c.id), impl=impl_out.get(c.id) if c.impl else None)))
-    scen = [impl_out.get("s%d" % i) for i in range(len(SCENARIOS))]
+    scen = [[impl_out.get("s%d_%d" % (j, i)) for i in range(len(SCENARIOS))] for j in range(len(seeds))]
     return rows, scen
 
 
@@ -773,6 +774,16 @@ def do_replay(path, bins, harness):
     obj = json.load(open(path))
     print("replay %s" % path)
     print("  what: %s" % obj.get("what", obj.get("obligation", "")))
+    if obj.get("kind") == "scenario":
+        sd = obj.get("payload_seed", 0)
+        lines = ["s%d scenario %s %s %d" % (i, t, s, sd) for i, (t, s) in enumerate(SCENARIOS)]
+        out = run_impl(harness, lines, shards=1)
+        res = [out.get("s%d" % i) for i in range(len(SCENARIOS))]
+        for i, (t, s) in enumerate(SCENARIOS):
+            print("  %-18s %s" % (t + "/" + s, (res[i] or "")[:300]))
+        bad = not (all(x and x.startswith("obs=") for x in res) and len(set(res)) == 1)
+        print("  verdict: %s" % ("FAILS (observations differ)" if bad else "passes (all 7 observations equal)"))
+        return bad
     if not obj.get("impl_case") and not obj.get("model_case"):
         print("  (no concrete input recorded: %s)" % json.dumps(obj.get("failed", ""))[:600])
         return None
@@ -829,8 +840,9 @@ def main(tier, replay):
     undischarged = [o for o in r["obligations"] if o not in r["discharged"]]
     proofs_ok = r["ok"] and not undischarged and gen_ok
     wide = (tier == "thorough")
+    seeds = [0] + ([rng.randrange(1, 1 << 31) for _ in range(20)] if wide else [rng.randrange(1, 1 << 31) for _ in range(2)])
     cases = make_cases(tier, rng, wide)
-    rows, scen = evaluate(cases, bins, harness, None)
+    rows, scen = evaluate(cases, bins, harness, seeds)
     common.info("C15: [%.0fs] %d cases evaluated" % (T.s(), len(rows)))
     bad_rows = [x for x in rows if x["bad_monitor"]]
     tie_rows = [x for x in rows if x["bad_tie"] and not x["bad_monitor"]]
@@ -840,7 +852,7 @@ def main(tier, replay):
         common.info("C15: obligations or correspondence broken; running the wide enumeration to find a failing input")
         searched = True
         cases = make_cases("thorough", rng, True)
-        rows, scen = evaluate(cases, bins, harness, None)
+        rows, scen = evaluate(cases, bins, harness, seeds)
         bad_rows = [x for x in rows if x["bad_monitor"]]
         tie_rows = [x for x in rows if x["bad_tie"] and not x["bad_monitor"]]
 
@@ -869,17 +881,22 @@ def main(tier, replay):
         obj["cases_with_this_signature"] = e["count"]
         v.finding(sig, obj, e["what"], tag="input")
 
-    # interchangeability
-    scen_ok = all(s is not None and s.startswith("obs=") for s in scen) and len(set(scen)) == 1
-    if not scen_ok:
-        diff = {"%s/%s" % SCENARIOS[i]: (scen[i] or "")[:6000] for i in range(len(SCENARIOS))}
+    # interchangeability: for every payload seed the 7 observations must be equal
+    scen_ok = True
+    for j, grp in enumerate(scen):
+        ok = all(x is not None and x.startswith("obs=") for x in grp) and len(set(grp)) == 1
+        if ok:
+            continue
+        scen_ok = False
         groups = {}
-        for i, s in enumerate(scen):
-            groups.setdefault(s, []).append("%s/%s" % SCENARIOS[i])
+        for i, x in enumerate(grp):
+            groups.setdefault(x, []).append("%s/%s" % SCENARIOS[i])
+        diff = {"%s/%s" % SCENARIOS[i]: (grp[i] or "")[:6000] for i in range(len(SCENARIOS))}
         v.finding("C15:interchangeability:" + ";".join(sorted(",".join(g) for g in groups.values())),
-                  {"property": PID, "kind": "scenario", "repo": common.REPO, "observations": diff,
+                  {"property": PID, "kind": "scenario", "repo": common.REPO, "payload_seed": seeds[j], "observations": diff,
                    "groups": sorted(groups.values())},
                   "the routing scenario is observed differently over different transports / serializers", tag="scenario")
+        break
 
     # obligations / tie without a failing input
     bad_hyg = [h for h in common.hygiene_scan() if h.startswith(("Transport/", "Props/C15.v", "gen/GenC15.v"))]
@@ -954,9 +971,10 @@ def _evidence(tier, T, r, v, rows, scen, gen_ok, seen, searched, kern_n=0):
         shown.add(c.kind)
         samples.append({"kind": c.kind, "implementation_case": c.impl, "model_case": c.model,
                         "reference_expects": x["spec"], "observed": x["obs"]})
-    if scen:
+    flat = [x for grp in scen for x in grp if x]
+    if flat:
         samples.append({"kind": "scenario", "combinations": ["%s/%s" % s for s in SCENARIOS],
-                        "observation": (scen[0] or "")[:1500]})
+                        "observation": flat[0][:1500]})
     tb = ["Coq 8.16.1 kernel incl. vm_compute", "translator /verif/go/cmd/genc15 (reading of Go syntax and integer semantics, coq/Transport/GoArith.v)",
           "extraction (ExtrOcamlBasic) + ocaml/c15/driver.ml", "Go harness /verif/go/cmd/c15drive (in-memory net.Conn, fake websocket connection, canonicaliser)",
           "modelled, not verified: ugorji codecs, gorilla/websocket framing, Go runtime and scheduler, OS sockets"]
@@ -971,15 +989,16 @@ def _evidence(tier, T, r, v, rows, scen, gen_ok, seen, searched, kern_n=0):
         "trusted_base": tb,
         "axioms": r["axioms"],
         "translator_ok": gen_ok,
-        "evaluations": len(rows) + len([s for s in scen if s]),
-        "distinct_nontrivial": len(distinct) + len(set(s for s in scen if s)),
+        "evaluations": len(rows) + len(flat),
+        "distinct_nontrivial": len(distinct) + len(scen),
         "rule": "cases are generated by enumeration (all 256 values of the length/serializer byte x reserved-byte patterns x configured limits for both handshake sides; sizes limit-1, limit, limit+1 for the announced limits; all frame types 0-7 with reserved upper bits; truncations) plus VERIF_SEED-driven random handshakes and frame streams; a case is counted once per distinct (kind, input) and every generated case is non-trivial in the sense that its outcome depends on a decision the property speaks about (handshake verdict, limit test within 1 of a limit, frame-type dispatch, PONG, drop, write order); helper lookups (canon) are not counted",
         "samples": samples,
         "cases_by_kind": by_kind,
         "exhaustive": bool(rows) and not searched,
         "exhaustive_subspaces": "server handshake: buf[1] in 0..255 x 4 reserved-byte patterns x 2 configured limits; client handshake: reply byte 1 in 0..255 x 3 protocols x 2 limits; frame types 0..7 x 3 upper-bit patterns x 3 serializers",
-        "scenario_combinations": len([s for s in scen if s]),
-        "scenarios_equal": bool(scen) and len(set(scen)) == 1,
+        "scenario_runs": len(flat),
+        "scenario_payload_seeds": len(scen),
+        "scenarios_equal": bool(scen) and all(len(set(g)) == 1 for g in scen),
         "findings": {sig: {"what": e["what"], "cases": e["count"]} for sig, e in seen.items()},
         "known_findings_reported": v.known,
         "wide_search_run": searched,
